@@ -652,3 +652,105 @@ theorem foldl_apply (ev : Ev) (fs : List Field) :
     cases f <;> simp [Field.apply, blockData, blockName, blockId, blockRetry]
 
 end Ioflo.Sse
+
+namespace Ioflo.Sse
+
+/-! ### `scan` is the `find`-based search of the code -/
+
+def shift (o : Option (Nat × Nat)) : Option (Nat × Nat) := o.map (fun p => (p.1 + 1, p.2))
+
+theorem better_shift (cur : Option (Nat × Nat)) (i : Option Nat) (tag : Nat) :
+    better (shift cur) (i.map (· + 1)) tag = shift (better cur i tag) := by
+  cases i with
+  | none => rfl
+  | some i =>
+    cases cur with
+    | none => rfl
+    | some p =>
+      obtain ⟨j, t⟩ := p
+      simp only [better, shift, Option.map]
+      by_cases h : i < j
+      · have : i + 1 < j + 1 := by omega
+        simp [h, this]
+      · have : ¬ (i + 1 < j + 1) := by omega
+        simp [h, this]
+
+theorem better_shift_none (i : Option Nat) (tag : Nat) :
+    better none (i.map (· + 1)) tag = shift (better none i tag) := by
+  cases i <;> rfl
+
+theorem better_shift_zero (c : Option (Nat × Nat)) (tag : Nat) :
+    better (shift c) (some 0) tag = some (0, tag) := by
+  cases c with
+  | none => rfl
+  | some p => obtain ⟨j, t⟩ := p; simp [better, shift]
+
+theorem better_keep_zero (t : Nat) (i : Option Nat) (tag : Nat) :
+    better (some (0, t)) i tag = some (0, t) := by
+  cases i <;> simp [better]
+
+theorem findCRLF_cons_ne {a : Nat} (h13 : a ≠ 13) (r : Bytes) :
+    findCRLF (a :: r) = (findCRLF r).map (· + 1) := by
+  cases r with
+  | nil => simp [findCRLF]
+  | cons b r' => simp [findCRLF, h13]
+
+theorem findByte_cons_ne {c a : Nat} (h : a ≠ c) (r : Bytes) :
+    findByte c (a :: r) = (findByte c r).map (· + 1) := by
+  simp [findByte, h]
+
+theorem earliestFind_other {a : Nat} (h10 : a ≠ 10) (h13 : a ≠ 13) (r : Bytes) :
+    earliestFind (a :: r) = shift (earliestFind r) := by
+  unfold earliestFind
+  rw [findCRLF_cons_ne h13, findByte_cons_ne h10, findByte_cons_ne h13,
+    better_shift_none, better_shift, better_shift]
+
+theorem scanFind_other {a : Nat} (h10 : a ≠ 10) (h13 : a ≠ 13) (r : Bytes) :
+    scanFind (a :: r) = match scanFind r with
+      | none => none
+      | some (l, r', k) => some (a :: l, r', k) := by
+  unfold scanFind
+  rw [earliestFind_other h10 h13]
+  cases earliestFind r with
+  | none => rfl
+  | some p =>
+    obtain ⟨i, t⟩ := p
+    have : i + 1 + eolLen t = (i + eolLen t) + 1 := by omega
+    simp [shift, this]
+
+theorem scanFind_eq_scan (raw : Bytes) : scanFind raw = scan raw := by
+  induction raw with
+  | nil => rfl
+  | cons a r ih =>
+    by_cases h10 : a = 10
+    · subst h10
+      have e : earliestFind (10 :: r) = some (0, 1) := by
+        unfold earliestFind
+        rw [findCRLF_cons_ne (by decide), findByte_cons_ne (c := 13) (by decide), better_shift_none]
+        have : findByte 10 (10 :: r) = some 0 := by simp [findByte]
+        rw [this, better_shift_zero, better_keep_zero]
+      simp [scanFind, e, scan, eolLen]
+    · by_cases h13 : a = 13
+      · subst h13
+        cases r with
+        | nil => simp [scanFind, earliestFind, findCRLF, findByte, better, scan, eolLen]
+        | cons b r' =>
+          by_cases hb : b = 10
+          · subst hb
+            have e : earliestFind (13 :: 10 :: r') = some (0, 0) := by
+              unfold earliestFind
+              have : findCRLF (13 :: 10 :: r') = some 0 := by simp [findCRLF]
+              rw [this]
+              show better (better (some (0, 0)) _ 1) _ 2 = _
+              rw [better_keep_zero, better_keep_zero]
+            simp [scanFind, e, scan, eolLen]
+          · have e : earliestFind (13 :: b :: r') = some (0, 2) := by
+              unfold earliestFind
+              have hc : findCRLF (13 :: b :: r') = (findCRLF (b :: r')).map (· + 1) := by simp [findCRLF, hb]
+              have h13' : findByte 13 (13 :: b :: r') = some 0 := by simp [findByte]
+              rw [hc, findByte_cons_ne (c := 10) (by decide), h13', better_shift_none, better_shift,
+                better_shift_zero]
+            simp [scanFind, e, scan, eolLen, hb]
+      · rw [scanFind_other h10 h13, ih, scan_cons_other h10 h13]
+
+end Ioflo.Sse
